@@ -222,53 +222,50 @@ theorem mania_truncation_visible_with_lookahead :
 
 /-! ## (c) `nth` hands over the same views as iterated `next` -/
 
-/-- **osu!**: from every reachable state, `nth k` (at least `k+1` values remaining) returns what
-`k+1` calls of `next` return — with view-reading skills, i.e. the skipped objects were processed
+/-- **osu!**: from every reachable state and for every `k` (since the fix of `Iterator::nth`: also when
+fewer than `k+1` values remain — both sides are then `None`), `nth k` returns what `k+1` calls of `next` return — with view-reading skills, i.e. the skipped objects were processed
 with the same `(index, view)` steps. -/
 theorem osu_nth_eq_iterated_next_with_views (vs : ViewSkills S) (objs : List OsuObj) (gtake : Nat)
-    (g : OsuGrad S) (i k : Nat) (hc : OsuCanon (osuSkillsV vs objs gtake) objs g i)
-    (hk : i + k + 1 ≤ objs.length) :
+    (g : OsuGrad S) (i k : Nat) (hc : OsuCanon (osuSkillsV vs objs gtake) objs g i) :
     let m := osuMachine (osuSkillsV vs objs gtake) objs
     some (m.nth g k).1 = (m.nexts g (k + 1)).1.getLast? :=
-  (osu_nth_eq_iterated_next_partial _ objs g i k hc hk).1
+  osu_nth_eq_iterated_next _ objs g i k hc
 
-/-- The steps `nth` has fed the free instance by the time it returns, explicitly: positions
-`0 … i+min(k+1, n−i)−2`, each with the part of the FULL gradual list visible from it. -/
+/-- The steps `nth` has fed the free instance by the time it returns a value (more than `k` values
+remaining), explicitly: positions `0 … i+k−1`, each with the part of the FULL gradual list visible
+from it. -/
 theorem osu_nth_trace (la : Ahead) (objs : List OsuObj) (gtake : Nat) (g : OsuGrad (List Step))
     (i k : Nat) (hc : OsuCanon (osuSkillsV (traceSkills la) objs gtake) objs g i)
-    (hlt : i < objs.length) :
+    (hlt : i + k < objs.length) :
     ∃ c, ((osuMachine (osuSkillsV (traceSkills la) objs gtake) objs).nth g k).1 =
-      .some (c, (List.range (i + min (k + 1) (objs.length - i) - 1)).map
+      .some (c, (List.range (i + k + 1 - 1)).map
         (fun j => (⟨j, visible la j (osuGradualList objs.length gtake)⟩ : Step))) := by
-  obtain ⟨hv, _⟩ := (osu_nth_processes_min _ objs g i k hc).1 hlt
-  refine ⟨osuPrefixCounts objs (i + min (k + 1) (objs.length - i)), ?_⟩
+  have hv := (osu_nth_processes_min _ objs g i k hc).2.1 hlt
+  refine ⟨osuPrefixCounts objs (i + k + 1), ?_⟩
   rw [hv]
   unfold osuValue osuSkillsV
   rw [trace_eq_map]
 
 theorem catch_nth_eq_iterated_next_with_views (vs : ViewSkills S) (evs : List CatchEvent)
     (g : CatchGrad S) (i k : Nat)
-    (hc : CatchCanon (catchSkillsV vs evs) (catchGradualRecs evs) g i)
-    (hk : i + k + 1 ≤ (catchGradualRecs evs).length) :
+    (hc : CatchCanon (catchSkillsV vs evs) (catchGradualRecs evs) g i) :
     let recs := catchGradualRecs evs
     let m := catchMachine (catchSkillsV vs evs) recs (recs.length - 1)
     some (m.nth g k).1 = (m.nexts g (k + 1)).1.getLast? :=
-  (catch_nth_eq_iterated_next_partial _ _ g i k hc hk).1
+  catch_nth_eq_iterated_next _ _ g i k hc
 
 theorem mania_nth_eq_iterated_next_with_views (vs : ViewSkills S) (objs : List ManiaObj) (gtake : Nat)
-    (g : ManiaGrad S) (i k : Nat) (hc : ManiaCanon (maniaSkillsV vs objs gtake) objs g i)
-    (hk : i + k + 1 ≤ objs.length) :
+    (g : ManiaGrad S) (i k : Nat) (hc : ManiaCanon (maniaSkillsV vs objs gtake) objs g i) :
     let m := maniaMachine (maniaSkillsV vs objs gtake) objs
     some (m.nth g k).1 = (m.nexts g (k + 1)).1.getLast? :=
-  (mania_nth_eq_iterated_next_partial _ objs g i k hc hk).1
+  mania_nth_eq_iterated_next _ objs g i k hc
 
 theorem taiko_nth_eq_iterated_next_with_views (vs : ViewSkills S) (objs : List Bool)
     (g : TaikoGrad S) (i k : Nat)
-    (hc : TaikoCanon (taikoSkillsV vs objs) objs g i)
-    (hk : i + k + 1 ≤ hitsIn objs) :
+    (hc : TaikoCanon (taikoSkillsV vs objs) objs g i) :
     let m := taikoMachine (taikoSkillsV vs objs) objs
     some (m.nth g k).1 = (m.nexts g (k + 1)).1.getLast? :=
-  (taiko_nth_eq_iterated_next _ objs g i k hc hk).1
+  taiko_nth_eq_iterated_next _ objs g i k (Or.inl hc)
 
 /-! ## (d) Generated obligations: the model's look-ahead and `take` positions are the source's -/
 
